@@ -32,6 +32,7 @@ theorem no_incomplete_file (remote : Key → Option Bytes) (tags : Ty → List N
     | spawn t ty rel => simp only [step]; split <;> rfl
     | clearTy ty => rfl
     | clearAll => rfl
+    | stray ty name b => rfl
   have : ∀ (as : List Action) (w : World), (run w as).remote = w.remote := by
     intro as
     induction as with
